@@ -8,9 +8,11 @@ IMBL = "imbl::Vector modelled as list (push/pop/insert/set/remove/truncate/appen
 
 
 class Stream:
-    def __init__(self, name, mode, cases, nontrivial, exhaustive=False, bounds="", hist_key=None, hook=False):
+    def __init__(self, name, mode, cases, nontrivial, exhaustive=False, bounds="", hist_key=None, hook=False,
+                 oracles=None):
         self.name, self.mode, self.cases, self.nontrivial = name, mode, cases, nontrivial
         self.exhaustive, self.bounds, self.hist_key, self.hook = exhaustive, bounds, hist_key, hook
+        self.oracles = oracles
 
 
 def diff_kind(case_tok):
